@@ -66,23 +66,36 @@ def _unjs(v):
     return v
 
 
+ALSO_CAP = 300   # length of the `also` lists (every failing case of a clause, tools/BOUNDED_GUIDE.md)
+
+
 class _Collector:
-    """keeps, per (fid, clause), the smallest failing input (smallest = lowest enumeration order)"""
+    """keeps, per (fid, clause), the smallest failing input (smallest = lowest enumeration order) and, as
+    `also`, every failing input in enumeration order (order, then kind), capped at ALSO_CAP"""
 
     def __init__(self):
         self.cases = 0
         self.nontrivial = 0
         self.fails = {}
+        self.also = {}
         self.samples = []
 
     def fail(self, order, fid, clause, detail, kind, inp, replay_fn):
         key = (fid, clause)
         cur = self.fails.get(key)
+        case = {'kind': kind, 'clause': clause, 'input': _js(inp)}
         if cur is None or order < cur[0]:
             self.fails[key] = (order, {
                 'fid': fid, 'clause': clause, 'detail': str(detail)[:600],
-                'case': {'kind': kind, 'clause': clause, 'input': _js(inp)},
+                'case': case,
                 'replay_fn': replay_fn})
+        self.also.setdefault(key, {}).setdefault((order, kind), case)
+        self._trim(key, 4 * ALSO_CAP)
+
+    def _trim(self, key, limit):
+        d = self.also[key]
+        if len(d) > limit:
+            self.also[key] = {k: d[k] for k in sorted(d)[:ALSO_CAP]}
 
     def merge(self, other):
         self.cases += other['cases']
@@ -91,16 +104,26 @@ class _Collector:
             cur = self.fails.get(key)
             if cur is None or order < cur[0]:
                 self.fails[key] = (order, f)
+        for key, d in other['also'].items():
+            mine = self.also.setdefault(key, {})
+            for k, case in d.items():
+                mine.setdefault(k, case)
+            self._trim(key, 4 * ALSO_CAP)
         for s in other['samples']:
             if len(self.samples) < 3 and all(x.split(':')[0] != s.split(':')[0] for x in self.samples):
                 self.samples.append(s)
 
     def export(self):
+        for key in list(self.also):
+            self._trim(key, ALSO_CAP)
         return {'cases': self.cases, 'nontrivial': self.nontrivial, 'fails': self.fails,
-                'samples': self.samples}
+                'samples': self.samples, 'also': self.also}
 
     def result(self, bound):
-        fails = [f for _, (o, f) in sorted(self.fails.items(), key=lambda kv: (kv[1][0], kv[0]))]
+        fails = []
+        for key, (o, f) in sorted(self.fails.items(), key=lambda kv: (kv[1][0], kv[0])):
+            d = self.also.get(key, {})
+            fails.append(dict(f, also=[d[k] for k in sorted(d)[:ALSO_CAP]]))
         return {'cases': self.cases, 'nontrivial': self.nontrivial, 'bound': bound,
                 'samples': self.samples[:3], 'fails': fails}
 
